@@ -204,6 +204,11 @@ pub fn judge_live(c: &crate::props::fid::FCase) -> Verdict {
                         if ctx.gpr[4] != *sp {
                             bad!("request-context:rsp", "exception context of the blamed thread {}: rsp {:#x}, the thread holds {:#x}", o.blamed, ctx.gpr[4], sp);
                         }
+                        // a 64-bit thread of this target runs with the flat user segments; a thread-specific
+                        // FS/GS *base* (TLS, or one set with arch_prctl) does not change the selectors
+                        if (ctx.cs, ctx.ss, ctx.ds, ctx.es, ctx.fs, ctx.gs) != (0x33, 0x2b, 0, 0, 0, 0) {
+                            bad!("request-context:segment", "exception context of the blamed (parked) thread {}: cs {:#x} ss {:#x} ds {:#x} es {:#x} fs {:#x} gs {:#x}, the thread holds 0x33 0x2b 0 0 0 0", o.blamed, ctx.cs, ctx.ss, ctx.ds, ctx.es, ctx.fs, ctx.gs);
+                        }
                         if ctx.rip != o.syms["park_syscall_insn"] + 2 {
                             bad!("request-context:rip", "exception context of the blamed thread {}: rip {:#x}, the thread is parked at {:#x}", o.blamed, ctx.rip, o.syms["park_syscall_insn"] + 2);
                         }
